@@ -29,6 +29,8 @@ type childSpec struct {
 	CidPrefix  string `json:"cid_prefix"`
 }
 
+var mergeFlag = flag.Bool("merge", false, "fold the evidence an earlier engine of the same check wrote into this run (C14)")
+
 func main() {
 	fl := evid.ParseFlags()
 	_ = flag.CommandLine
@@ -53,8 +55,13 @@ func main() {
 		os.Exit(c12Main(fl))
 	case "C13":
 		os.Exit(c13Main(fl))
+	case "C14":
+		if fl.Child != "" {
+			os.Exit(c14Child(fl))
+		}
+		os.Exit(c14Main(fl, *mergeFlag))
 	default:
-		fmt.Printf("cnisim: unknown property %q (want C12 or C13)\n", fl.Prop)
+		fmt.Printf("cnisim: unknown property %q (want C12, C13 or C14)\n", fl.Prop)
 		os.Exit(evid.ExitBroken)
 	}
 }
